@@ -125,7 +125,7 @@ func famMeta(w *World, c *Case, rng *rand.Rand) {
 	}
 	k := 1 + rng.Intn(3)
 	budget := 400000
-	o := ScriptOpts{MaxMsgs: 3, MaxSize: 70000, Pacing: "eager", Status: true, Meta: true, BudgetLeft: &budget}
+	o := ScriptOpts{FlowControl: w.Cfg.RevisionOne(), MaxMsgs: 3, MaxSize: 70000, Pacing: "eager", Status: true, Meta: true, BudgetLeft: &budget}
 	var specs []*RPCSpec
 	for i := 0; i < k; i++ {
 		s := GenRPC(rng, fmt.Sprintf("m%d", i), o)
